@@ -275,7 +275,15 @@ function compiler.compile_code(ccode, cfile, compileopts)
   local binfile = cfile:gsub('.c$','')
   local ccmd = get_compile_args(cfile, binfile, cflags)
   -- file heading
-  local hash = stringer.hash(ccode..ccinfotext..ccmd)
+  -- local headers included by the generated code are part of what the binary is built from
+  local headers = {}
+  for name in ccode:gmatch('#include "([^"\n]+)"') do
+    for _,incdir in ipairs(compileopts.incdirs) do
+      local content = fs.readfile(fs.join(incdir, name))
+      if content then headers[#headers+1] = content break end
+    end
+  end
+  local hash = stringer.hash(ccode..ccinfotext..ccmd..table.concat(headers))
   local heading = not compileopts.nocheading and string.format(
 [[/* Generated by %s */
 /* Compile command: %s */
